@@ -157,6 +157,12 @@ def d1_catch(facts, rep):
             nsites += 1
             in_override = fn.d.get('virt') and fn.p.split('::')[-1] in ('execute', 'cancel') and TASK_BASE in fn.bases
             in_try = node.get('tr') is not None
+            if in_try and not in_override:
+                hs = [nd for nd in fn.nodes if nd and nd.get('k') == 'catch' and nd.get('try') == node.get('tr')]
+                rep.ob('D1', 'K9', fn, 'the try around task::%s at line %s stops every exception (catch(...))' % (d['n'], node['ln']),
+                       any(h.get('ell') for h in hs), 'handlers %s: an exception of another type thrown by a task body escapes on the '
+                       'worker thread instead of being captured into the group context' % [h.get('ty') or '...' for h in hs],
+                       ln=node['ln'], key_extra='catchall' + str(node['ln']))
             rep.ob('D1', 'K11', fn, 'virtual task::%s call at line %s runs under the dispatch loop\'s try' % (d['n'], node['ln']),
                    in_override or in_try,
                    'a task is executed outside the try of the dispatch loop: an exception thrown by the body is not captured into the '
